@@ -66,6 +66,9 @@ pub enum Illegal {
     /// 4 tuple, 5 array, 6 function type, 10 Vec[foreign struct], 11 unit), or an inherent impl
     /// for a type that is not the package's own (7 Vec[int32], 8 int32, 9 foreign struct)
     OrphanImplBuiltin(u8),
+    /// P calls `T::ZzT::zz(v)` on a value of type Q::ZzS (obtained through R): the trait's
+    /// package T is imported by P, the impl lives in Q, which P does not import
+    ImplFromNonImported,
     /// package Main implements its own trait twice, the second time naming it `Main::ZzT`
     /// (0 = plain then qualified, 1 = both qualified)
     DuplicateImplSpelled(u8),
@@ -102,7 +105,7 @@ pub enum Via {
     StructPattern,
 }
 
-pub const ILLEGAL_KINDS: [Illegal; 51] = [
+pub const ILLEGAL_KINDS: [Illegal; 52] = [
     Illegal::NotImported,
     Illegal::NotImportedVia(Via::SignatureType),
     Illegal::NotImportedVia(Via::LetAnnotation),
@@ -154,6 +157,7 @@ pub const ILLEGAL_KINDS: [Illegal; 51] = [
     Illegal::BuiltinNamedType(0),
     Illegal::BuiltinNamedType(1),
     Illegal::NotImportedInThisFile(7),
+    Illegal::ImplFromNonImported,
 ];
 
 fn reaches(proj: &Project, from: usize, to: usize) -> bool {
@@ -359,6 +363,42 @@ pub fn inject(proj: &Project, kind: &Illegal, p: &mut Prng) -> Option<(Files, Fi
                 "\nimpl {q}::ZzT for {r}::ZzG[ZzL] {{\n    fn zz(self: {r}::ZzG[ZzL]) -> int32 {{\n        1\n    }}\n}}\n"
             ));
             desc = format!("{} implements foreign trait {q}::ZzT for foreign generic type {r}::ZzG instantiated at its own type ZzL", proj.pkgs[pi].name);
+        }
+        Illegal::ImplFromNonImported => {
+            // chain P -> R -> Q with Q not imported by P, and a package T behind Q for the trait
+            let mut chains = Vec::new();
+            for pi in 0..n {
+                for &ri in &proj.pkgs[pi].imports {
+                    for &qi in &proj.pkgs[ri].imports {
+                        if qi != pi && !proj.pkgs[pi].imports.contains(&qi) && qi + 1 < n {
+                            chains.push((pi, ri, qi));
+                        }
+                    }
+                }
+            }
+            if chains.is_empty() {
+                return None;
+            }
+            let (pi, ri, qi) = *p.pick(&chains);
+            let ti = n - 1;
+            if ti == pi || ti == ri || ti == qi {
+                return None;
+            }
+            for x in [pi, qi] {
+                if !twin.pkgs[x].imports.contains(&ti) {
+                    twin.pkgs[x].imports.push(ti);
+                }
+            }
+            let (rn, qn, tn) = (proj.pkgs[ri].name.clone(), proj.pkgs[qi].name.clone(), proj.pkgs[ti].name.clone());
+            twin.pkgs[ti].raw.push_str("\ntrait ZzT {\n    fn zz(Self) -> int32;\n}\n");
+            twin.pkgs[qi].raw.push_str(&format!(
+                "\nstruct ZzS {{\n    x: int32,\n}}\n\nimpl {tn}::ZzT for ZzS {{\n    fn zz(self: ZzS) -> int32 {{\n        self.x\n    }}\n}}\n"
+            ));
+            twin.pkgs[ri].raw.push_str(&format!("\nfn zz_make() -> {qn}::ZzS {{\n    {qn}::ZzS {{ x: 5 }}\n}}\n"));
+            twin.pkgs[pi].raw_last.push_str(&format!("\nfn zz_ok() -> int32 {{\n    let v = {rn}::zz_make();\n    1\n}}\n"));
+            bad = twin.clone();
+            bad.pkgs[pi].raw_last.push_str(&format!("\nfn zz_bad() -> int32 {{\n    {tn}::ZzT::zz({rn}::zz_make())\n}}\n"));
+            desc = format!("{} calls {tn}::ZzT::zz on a value of {qn}::ZzS: the impl lives in {qn}, which it does not import", proj.pkgs[pi].name);
         }
         Illegal::DuplicateImplSpelled(form) => {
             twin.pkgs[0].raw.push_str("\ntrait ZzT {\n    fn zz(Self) -> int32;\n}\n\nstruct ZzS {\n    x: int32,\n}\n");
